@@ -392,6 +392,9 @@ func (g provGroup) precedingText() string {
 	for i := pos - 1; i >= 0 && len(out) < 6; i-- {
 		ch := pat[i]
 		switch {
+		case i >= 1 && pat[i-1] == '\\':
+			out = append([]byte{ch}, out...)
+			i--
 		case ch == ':' && i >= 2 && pat[i-1] == '?' && pat[i-2] == '(':
 			i -= 2
 			continue
@@ -399,9 +402,6 @@ func (g provGroup) precedingText() string {
 			continue
 		case ch == ')' || ch == ']' || ch == '*' || ch == '+' || ch == '}' || ch == '|' || ch == '^':
 			i = -1
-		case i >= 1 && pat[i-1] == '\\':
-			out = append([]byte{ch}, out...)
-			i--
 		case ch == '\\':
 			continue
 		default:
